@@ -20,13 +20,24 @@ Definition is_initial (l : fxline) : Prop := fx_c6 l = " "%char \/ fx_c6 l = "0"
 Definition is_continuation (l : fxline) : Prop :=
   is_space (fx_c6 l) = false /\ fx_c6 l <> "0"%char /\ fx_label l = spaces 5.
 
-(* comment lines: C, c, * or ! in column 1 (not an OpenMP sentinel); blank lines: any width *)
+(* comment lines: C, c, * or ! in column 1 (not an OpenMP sentinel); blank lines: any width;
+   comment lines whose '!' stands in columns 2-5 *)
 Definition wf_fxirr (i : fxirr) : Prop :=
   match i with
   | FxComment c0 rest =>
     contains_ch c0 (s "cC*!") = true /\ head_is "$"%char rest = false /\ ~ In nl rest
   | FxBlank n => True
+  | FxBang ind rest => 1 <= ind <= 4 /\ ~ In nl rest
   end.
+(* ... by the standard the '!' of a comment line may stand in any column but column 6 *)
+Definition wf_fxirr_std (i : fxirr) : Prop :=
+  match i with
+  | FxBang ind rest => 1 <= ind /\ ind <> 5 /\ ~ In nl rest
+  | _ => wf_fxirr i
+  end.
+(* the region of the open finding: a '!' comment line that starts in column 7 or beyond *)
+Definition early_irr (i : fxirr) : Prop :=
+  match i with FxBang ind _ => ind <= 4 | _ => True end.
 
 (* ---------- analyse ---------- *)
 
@@ -224,17 +235,43 @@ Proof.
   eexists. reflexivity.
 Qed.
 
+(* a line whose first non-blank character is a '!' in columns 2-5 passes unchanged *)
+Lemma analyse_bang ll ind rest : 1 <= ind <= 4 ->
+  exists lg ex, analyse ll (spaces ind ++ bang :: rest ++ [nl]) =
+  {| f_conv := spaces ind ++ bang :: rest ++ [nl]; f_regular := false; f_cont := false; f_long := lg;
+     f_omp := false; f_excess := ex |}.
+Proof.
+  intros H. destruct ind as [|[|[|[|[|ind]]]]]; try lia;
+    unfold analyse, spaces; cbn [repeat app length firstn slice skipn Nat.sub Nat.ltb Nat.leb];
+    change (contains_ch " "%char (s "cC*!")) with false;
+    change (str_eqb [" "%char] (s "#")) with false.
+  all: match goal with
+       | |- context [contains_ch bang ?x && negb false] =>
+         assert (Hb : contains_ch bang x = true)
+           by (cbn [contains_ch]; change (Ascii.eqb bang " "%char) with false; rewrite Ascii.eqb_refl;
+               cbn [orb]; reflexivity);
+         rewrite Hb
+       end.
+  all: cbn [andb negb orb]; rewrite !andb_false_r; cbv beta iota zeta; rewrite ?andb_false_r;
+       eexists _, _; reflexivity.
+Qed.
+
 (* ---------- the line stack ---------- *)
 
 Definition irr_conv (i : fxirr) : str :=
-  match i with FxComment _ rest => bang :: rest ++ [nl] | FxBlank n => spaces (n - 6) ++ [nl] end.
+  match i with
+  | FxComment _ rest => bang :: rest ++ [nl]
+  | FxBlank n => spaces (n - 6) ++ [nl]
+  | FxBang ind rest => spaces ind ++ bang :: rest ++ [nl]
+  end.
 
 Lemma analyse_irr ll i : wf_fxirr i ->
   f_conv (analyse ll (render_fxirr i)) = irr_conv i /\ f_regular (analyse ll (render_fxirr i)) = false.
 Proof.
-  destruct i as [c0 rest|n]; intros H; cbn [render_fxirr irr_conv].
+  destruct i as [c0 rest|n|ind rest]; intros H; cbn [render_fxirr irr_conv].
   - destruct (analyse_comment ll c0 rest H) as (lg & ex & E). rewrite E. split; reflexivity.
   - destruct (analyse_blank ll n) as (lg & E). rewrite E. split; reflexivity.
+  - destruct H as (H & _). destruct (analyse_bang ll ind rest H) as (lg & ex & E). rewrite E. split; reflexivity.
 Qed.
 
 (* irregular lines pile up on the stack *)
@@ -314,13 +351,45 @@ Qed.
 
 (* ---------- the whole file through the converter ---------- *)
 
-Definition wf_conts (conts : list (list fxirr * fxline)) : Prop :=
-  Forall (fun p => Forall wf_fxirr (fst p) /\ wf_fxline (snd p) /\ is_continuation (snd p)) conts.
-Definition wf_stmt (st : fxstmt) : Prop :=
-  wf_fxline (fs_first st) /\ is_initial (fs_first st) /\ wf_conts (fs_conts st) /\
+(* [P]: which comment and blank lines are admitted *)
+Definition wf_conts_of (P : fxirr -> Prop) (conts : list (list fxirr * fxline)) : Prop :=
+  Forall (fun p => Forall P (fst p) /\ wf_fxline (snd p) /\ is_continuation (snd p)) conts.
+Definition wf_stmt_of (P : fxirr -> Prop) (st : fxstmt) : Prop :=
+  wf_fxline (fs_first st) /\ is_initial (fs_first st) /\ wf_conts_of P (fs_conts st) /\
   texts_ok None (fs_first st) (fs_conts st).
-Definition wf_item (it : fxitem) : Prop :=
-  match it with FxIrr i => wf_fxirr i | FxStmt st => wf_stmt st end.
+Definition wf_item_of (P : fxirr -> Prop) (it : fxitem) : Prop :=
+  match it with FxIrr i => P i | FxStmt st => wf_stmt_of P st end.
+
+(* the class of the theorems: '!' comment lines start in columns 1-5 *)
+Definition wf_conts := wf_conts_of wf_fxirr.
+Definition wf_stmt := wf_stmt_of wf_fxirr.
+Definition wf_item := wf_item_of wf_fxirr.
+(* the class of the full statement: '!' comment lines start in any column but column 6 *)
+Definition wf_item_std := wf_item_of wf_fxirr_std.
+Definition early_item (it : fxitem) : Prop :=
+  match it with
+  | FxIrr i => early_irr i
+  | FxStmt st => Forall (fun p => Forall early_irr (fst p)) (fs_conts st)
+  end.
+
+Lemma early_wf_irr i : wf_fxirr_std i -> early_irr i -> wf_fxirr i.
+Proof.
+  destruct i as [c0 rest|n|ind rest]; cbn [wf_fxirr_std wf_fxirr early_irr]; tauto.
+Qed.
+
+Lemma early_wf_item it : wf_item_std it -> early_item it -> wf_item it.
+Proof.
+  destruct it as [i|st]; [apply early_wf_irr|].
+  intros (A & B & C & D) E. split; [exact A|]. split; [exact B|]. split; [|exact D].
+  unfold wf_conts_of in *. cbn [early_item] in E. rewrite Forall_forall in *. intros p Hp.
+  destruct (C p Hp) as (C1 & C2 & C3). split; [|split; assumption].
+  specialize (E p Hp). rewrite Forall_forall in *. intros i Hi. apply early_wf_irr; auto.
+Qed.
+
+Lemma early_wf f : Forall wf_item_std f -> Forall early_item f -> Forall wf_item f.
+Proof.
+  intros A B. rewrite Forall_forall in *. intros it Hit. apply early_wf_item; auto.
+Qed.
 
 Definition stmt_lines (st : fxstmt) : list str :=
   flat_map (fun q => fx_conv_continued (fst q) :: map irr_conv (snd q))
@@ -548,9 +617,10 @@ Qed.
 
 Lemma line_irr i : chomp (irr_conv i) = render_bline (bline_of i).
 Proof.
-  destruct i as [c0 rest|n]; cbn [irr_conv bline_of render_bline spaces repeat app].
+  destruct i as [c0 rest|n|ind rest]; cbn [irr_conv bline_of render_bline].
   - change (bang :: rest ++ [nl]) with ((bang :: rest) ++ [nl]). apply chomp_snoc.
   - apply chomp_snoc.
+  - rewrite app_comm_cons, app_assoc. apply chomp_snoc.
 Qed.
 
 (* the texts of the continued lines of a statement whose line breaks fall outside literals *)
@@ -617,9 +687,10 @@ Proof.
   cbn [flat_map free_of map]. rewrite map_app. unfold render_file in *. cbn [flat_map].
   fold (free_of f). rewrite (IH Hc2). f_equal.
   destruct it as [i|st]; cbn [out_item free_item render_item map].
-  - destruct i as [c0 rest|n]; cbn [irr_conv].
+  - destruct i as [c0 rest|n|ind rest]; cbn [irr_conv].
     + change (bang :: rest ++ [nl]) with ((bang :: rest) ++ [nl]). now rewrite chomp_snoc.
     + now rewrite chomp_snoc.
+    + now rewrite app_comm_cons, app_assoc, chomp_snoc.
   - destruct Hit as (Hfirst & _ & Hconts & Htexts). unfold stmt_lines.
     apply (stmt_lines_free (fs_conts st) (fs_first st) true Hfirst Hconts).
     now apply texts_conts_clear.
@@ -648,16 +719,19 @@ Qed.
 
 (* C14, full: a fixed-form file reads as its free-form equivalent by the standard's rules *)
 Definition statement_C14 : Prop :=
-  forall ll f, Forall wf_item f ->
+  forall ll f, Forall wf_item_std f ->
   read_all default_cfg (map chomp (convert_to_free ll (render_fixed f)))
   = read_all default_cfg (render_file (std_free_of f)).
 
-(* ... and it holds for every file in which no character literal is continued across lines *)
+(* ... and it holds for every file in which no character literal is continued across lines and
+   every '!' comment line starts in columns 1-5 *)
 Theorem partial_C14 ll f :
-  Forall wf_item f -> Forall closed_item f ->
+  Forall wf_item_std f -> Forall closed_item f -> Forall early_item f ->
   read_all default_cfg (map chomp (convert_to_free ll (render_fixed f)))
   = read_all default_cfg (render_file (std_free_of f)).
-Proof. intros H Hc. now rewrite (std_free_closed f Hc), (fixed_as_free ll f H Hc). Qed.
+Proof.
+  intros H Hc He. now rewrite (std_free_closed f Hc), (fixed_as_free ll f (early_wf f H He) Hc).
+Qed.
 
 Corollary fixed_statements ll f :
   Forall wf_item f -> Forall closed_item f -> Forall item_ok (free_of f) ->
@@ -673,7 +747,14 @@ Ltac wf_tac :=
          | |- Forall (fun c : ascii => lab_char c = true) _ => repeat constructor
          | |- Forall _ (_ :: _) => constructor
          | |- Forall _ [] => constructor
-         | |- wf_item _ => cbn [wf_item]
+         | |- wf_item _ => unfold wf_item
+         | |- wf_item_std _ => unfold wf_item_std
+         | |- wf_item_of _ _ => cbn [wf_item_of]
+         | |- wf_stmt_of _ _ => unfold wf_stmt_of; cbn [fs_first fs_conts]
+         | |- wf_conts_of _ _ => unfold wf_conts_of
+         | |- wf_fxirr_std _ => cbn [wf_fxirr_std wf_fxirr]
+         | |- early_item _ => cbn [early_item fs_conts]
+         | |- early_irr _ => cbn [early_irr]
          | |- closed_item _ => cbn [closed_item fs_first fs_conts closed_breaks mkfx fx_text]
          | |- wf_stmt _ => unfold wf_stmt; cbn [fs_first fs_conts]
          | |- wf_conts _ => unfold wf_conts
@@ -701,7 +782,7 @@ Definition witness_literal : list fxitem :=
   [FxStmt {| fs_first := mkfx (spaces 5) " " 0 (s "s = 'ab") 0 None;
              fs_conts := [([], mkfx (spaces 5) "&" 0 (s "cd'") 0 None)] |}].
 
-Lemma witness_literal_wf : Forall wf_item witness_literal.
+Lemma witness_literal_wf : Forall wf_item_std witness_literal.
 Proof. unfold witness_literal. wf_tac. Qed.
 
 Example literal_split_outputs :
@@ -795,4 +876,59 @@ Example example_doc_ok :
 Proof.
   split; [unfold example_doc; wf_tac|]. split; [unfold example_doc; wf_tac|].
   split; vm_compute; reflexivity.
+Qed.
+
+(* ---------- '!' as continuation mark and as comment initiator ---------- *)
+
+(* a comment line whose '!' stands in column 7, between a line and its continuation line
+         x = 1   /        ! note   /        &  + 2                                      *)
+Definition witness_indented : list fxitem :=
+  [FxStmt {| fs_first := mkfx (spaces 5) " " 0 (s "x = 1") 0 None;
+             fs_conts := [([FxBang 6 (s " note")], mkfx (spaces 5) "&" 2 (s "+ 2") 0 None)] |}].
+
+Lemma witness_indented_wf : Forall wf_item_std witness_indented.
+Proof. unfold witness_indented. wf_tac. Qed.
+
+Example indented_comment_outputs :
+  render_fixed witness_indented = [s "      x = 1" ++ [nl]; s "      ! note" ++ [nl]; s "     &  + 2" ++ [nl]] /\
+  Forall closed_item witness_indented /\ ~ Forall early_item witness_indented /\
+  map chomp (convert_to_free true (render_fixed witness_indented)) = [s "x = 1"; s " & ! note"; s "  + 2"] /\
+  read_all default_cfg (map chomp (convert_to_free true (render_fixed witness_indented)))
+  = ROk [s "x = 1"; s "+ 2"] /\
+  read_all default_cfg (render_file (std_free_of witness_indented)) = ROk [s "x = 1 + 2"].
+Proof.
+  split; [reflexivity|]. split; [unfold witness_indented; wf_tac|].
+  split; [|repeat match goal with |- _ /\ _ => split end; vm_compute; reflexivity].
+  intros H. inversion H as [|? ? He _]. cbn [early_item fs_conts] in He.
+  inversion He as [|? ? Hp _]. cbn [fst] in Hp. inversion Hp as [|? ? Hi _]. cbn [early_irr] in Hi. lia.
+Qed.
+
+Theorem refuted_indented_comment : ~ statement_C14.
+Proof. intros H. specialize (H true witness_indented witness_indented_wf). vm_compute in H. discriminate. Qed.
+
+(* in the class of the theorems: '!' in column 6 marks a continuation line (three times here, once
+   followed by text that looks like a comment mark, once on a line with an inline comment), and
+   comment lines whose '!' stands in columns 2 to 5 pass as comment lines *)
+Definition example_bang : list fxitem :=
+  [FxIrr (FxBang 2 (s " in column 3"));
+   FxStmt {| fs_first := mkfx (s "   10") " " 0 (s "call f(a,") 1 (Some (s " first"));
+             fs_conts := [([FxBang 1 (s ""); FxBang 4 (s " col 5")], mkfx (spaces 5) "!" 2 (s "b,") 0 (Some (s " note")));
+                          ([], mkfx (spaces 5) "!" 0 (s "c,") 0 None);
+                          ([FxBlank 8], mkfx (spaces 5) "!" 1 (s "d)") 0 None)] |}].
+
+Example example_bang_ok :
+  Forall wf_item example_bang /\ Forall closed_item example_bang /\ Forall item_ok (free_of example_bang) /\
+  render_fixed example_bang
+  = map (fun x => x ++ [nl])
+        [s "  ! in column 3"; s "   10 call f(a, ! first"; s " !"; s "    ! col 5"; s "     !  b,! note"; s "     !c,";
+         s "        "; s "     ! d)"] /\
+  map chomp (convert_to_free true (render_fixed example_bang))
+  = [s "  ! in column 3"; s "10 call f(a, & ! first"; s " !"; s "    ! col 5"; s "  b, & ! note"; s "c, &"; s "  "; s " d)"] /\
+  read_all default_cfg (map chomp (convert_to_free true (render_fixed example_bang)))
+  = ROk [s "10 call f(a, b, c, d)"].
+Proof.
+  split; [unfold example_bang; wf_tac|]. split; [unfold example_bang; wf_tac|].
+  split; [|repeat match goal with |- _ /\ _ => split end; vm_compute; reflexivity].
+  repeat constructor; simpl; repeat split; try reflexivity; try discriminate; auto;
+    try (intros; discriminate); try (repeat constructor; simpl; repeat split; discriminate).
 Qed.
